@@ -1624,7 +1624,12 @@ func c07LenEqDominates(v ssa.Value, b *ssa.BasicBlock) (int64, bool) {
 // ivFree: "checked" every path to here tested len == 16; "free" some caller
 // chain hands in a caller-chosen slice with no such test; "" unknown.
 func (st *c07State) ivFree(fn *ssa.Function, v ssa.Value, at *ssa.BasicBlock, depth int) (string, string) {
-	if c, ok := c07LenEqDominates(v, at); ok && c == 16 {
+	return st.lenFree(fn, v, at, depth, 16)
+}
+
+// lenFree: ivFree for an arbitrary required length.
+func (st *c07State) lenFree(fn *ssa.Function, v ssa.Value, at *ssa.BasicBlock, depth int, want int64) (string, string) {
+	if c, ok := c07LenEqDominates(v, at); ok && c == want {
 		return "checked", FuncName(st.p, fn)
 	}
 	par, ok := v.(*ssa.Parameter)
@@ -1653,7 +1658,7 @@ func (st *c07State) ivFree(fn *ssa.Function, v ssa.Value, at *ssa.BasicBlock, de
 		if arg == nil {
 			return "", ""
 		}
-		v2, chain := st.ivFree(cs.Caller, c07SameLen(arg), cs.Instr.Block(), depth+1)
+		v2, chain := st.lenFree(cs.Caller, c07SameLen(arg), cs.Instr.Block(), depth+1, want)
 		switch v2 {
 		case "free":
 			return "free", chain + " -> " + FuncName(st.p, fn)
